@@ -46,6 +46,21 @@ def competing_specs(tier):
                        {"name": "WP1", "cap": cap, "targets": [0, 1], "facilities": [{"name": "F1", "skills": dict(full)}]}]
                 teams = [{"name": "TM0", "targets": [0, 1], "workers": [{"name": "W%d" % i, "skills": dict(full), "fskills": {"F0": 1.0, "F1": 1.0}} for i in range(2)]}]
                 out.append({"tasks": tasks, "links": links, "components": comps, "workplaces": wps, "teams": teams})
+    # fixed facility IDs naming a facility of another workplace than the one the component is placed at
+    for fixf in (["F2"], ["F1", "F2"], ["F0"]):
+        for cap0, cap1 in ((1.0, 1.0), (2.0, 1.0), (1.0, 2.0)):
+            names = ["T0", "T1"]
+            full = {nm: 1.0 for nm in names}
+            tasks = [{"name": "T0", "work": 2.0, "nf": True, "fixf": fixf}, {"name": "T1", "work": 3.0, "nf": True}]
+            comps = [{"name": "C0", "tasks": [0]}, {"name": "C1", "tasks": [1]}]
+            wps = [{"name": "WP0", "cap": cap0, "targets": [0, 1], "facilities": [{"name": "F0", "skills": dict(full)}, {"name": "F1", "skills": dict(full)}]},
+                   {"name": "WP1", "cap": cap1, "targets": [0, 1], "facilities": [{"name": "F2", "skills": dict(full)}]}]
+            teams = [{"name": "TM0", "targets": [0, 1], "workers": [{"name": "W%d" % i, "skills": dict(full), "fskills": {"F0": 1.0, "F1": 1.0, "F2": 1.0}} for i in range(2)]}]
+            for order in (None, [1, 0]):
+                sp = {"tasks": tasks, "links": [], "components": comps, "workplaces": wps, "teams": teams}
+                if order:
+                    sp["order"] = order
+                out.append(sp)
     # assembly: parent with two children that are processed first (FS into the parent's task), parts area + dock
     for cap_parts in (1.0, 2.0):
         for cap_dock in (1.0, 3.0):
